@@ -972,6 +972,11 @@ fn enumerate_faults(sc: &Value, census: &Sub, tier: &str) -> Vec<Value> {
                         out.push(f(Action::ErrnoPersist(*e)));
                     }
                 }
+                if matches!(ev.sys.nr, SYS_READ | SYS_PREAD64) && ev.ret >= 2 {
+                    // a short read (the kernel hands over fewer bytes than were asked for and available): legal; the
+                    // call must give the same truthful result
+                    out.push(f(Action::Short(if ev.ret >= 16 { (ev.ret as u64) / 2 } else { 1 })));
+                }
                 if ev.sys.data_write {
                     let len = if ev.ret > 0 { ev.ret as u64 } else { ev.sys.len.unwrap_or(0) };
                     if len >= 2 {
